@@ -156,6 +156,7 @@ func (vm *VM) lockWrite(p PtrV, try bool) bool {
 		ls.owner = vm.P.curThread
 		vm.addHeld(k)
 		vm.raceAcquire(k, true)
+		vm.onLockAcquired(try)
 		return true
 	}
 	if try {
@@ -165,6 +166,20 @@ func (vm *VM) lockWrite(p PtrV, try bool) bool {
 	vm.lockEventLog("lock", ls, false)
 	vm.blockedOnLock(ls, "Lock")
 	return false
+}
+
+// onLockAcquired runs the harness hook registered with vOnLockAcquired (thread 1, blocking
+// acquires only): the harness uses it to take a clock reading "when the lock was obtained".
+func (vm *VM) onLockAcquired(try bool) {
+	h := vm.P.onLock
+	if h == nil || try || vm.P.curThread != 1 || vm.P.inHook {
+		return
+	}
+	vm.P.inHook = true
+	saved, savedDepth := vm.cur, vm.depth
+	vm.callValue(h, nil, nil)
+	vm.cur, vm.depth = saved, savedDepth
+	vm.P.inHook = false
 }
 
 // blockedOnLock: a blocking acquire found the lock taken.
@@ -371,6 +386,13 @@ func addSync(m map[string]Intrinsic) {
 	m["vocab.vRaceEnd"] = func(vm *VM, fn *ssa.Function, args []Value) Value {
 		if vm.P.race != nil {
 			vm.P.race.on = false
+		}
+		return nil
+	}
+	m["vocab.vOnLockAcquired"] = func(vm *VM, fn *ssa.Function, args []Value) Value {
+		vm.P.onLock = args[0]
+		if f, ok := args[0].(*FuncV); ok && f == nil {
+			vm.P.onLock = nil
 		}
 		return nil
 	}
